@@ -650,6 +650,57 @@ func specRegNum(s string) int {
 //@ ensures[num]    specRegNum(regName) >= 0 ==> result1 == nil && result0 == specRegNum(regName)
 //@ ensures[reject] specRegNum(regName) < 0 ==> result1 != nil
 
+
+// ---------------------------------------------------------------------------
+// IN / OUT (SDM Vol. 2): accumulator and port forms; the port immediate is one byte.
+// ---------------------------------------------------------------------------
+
+// specPortImm: value of a port operand written as a number (strconv base-0 syntax, 8 bits).
+func specPortImm(s string) byte { v, _ := strconv.ParseUint(s, 0, 8); return byte(v) }
+
+func specPortImmOK(s string) bool { _, err := strconv.ParseUint(s, 0, 8); return err == nil }
+
+// specInOutBytes: out is [66h] opcode [ib] for accumulator acc (upper case) and port operand port.
+func specInOutBytes(out []byte, acc, port string, opAL8, opWide8, opALdx, opWideDx byte) bool {
+	isDX := strings.ToUpper(port) == "DX"
+	n := len(out)
+	tail := 1
+	if !isDX {
+		tail = 2
+	}
+	if n != tail && n != tail+1 {
+		return false
+	}
+	if n == tail+1 && out[0] != 0x66 {
+		return false
+	}
+	op := out[n-tail]
+	switch {
+	case isDX && acc == "AL":
+		return op == opALdx
+	case isDX && (acc == "AX" || acc == "EAX"):
+		return op == opWideDx
+	case !isDX && acc == "AL":
+		return op == opAL8 && out[n-1] == specPortImm(port)
+	case !isDX && (acc == "AX" || acc == "EAX"):
+		return op == opWide8 && out[n-1] == specPortImm(port)
+	}
+	return false
+}
+
+//@ func handleIN
+//@ props C01 C13
+//@ requires ctx != nil
+//@ ensures[bytes] result1 == nil ==> len(params.Operands) == 2 && specInOutBytes(result0, strings.ToUpper(params.Operands[0]), params.Operands[1], 0xE4, 0xE5, 0xEC, 0xED)
+//@ ensures[noacc] len(params.Operands) == 2 && strings.ToUpper(params.Operands[0]) != "AL" && strings.ToUpper(params.Operands[0]) != "AX" && strings.ToUpper(params.Operands[0]) != "EAX" ==> result1 != nil
+//@ assigns OperandPegImpl.bitMode, OperandType[]
+
+//@ func handleOUT
+//@ props C01 C13
+//@ requires ctx != nil
+//@ ensures[bytes] result1 == nil ==> len(params.Operands) == 2 && specInOutBytes(result0, strings.ToUpper(params.Operands[1]), strings.ToUpper(params.Operands[0]), 0xE6, 0xE7, 0xEE, 0xEF)
+//@ assigns OperandPegImpl.bitMode, OperandType[]
+
 // specIsMemText: the test the ModR/M builders use to tell a memory operand from a register name.
 func specIsMemText(s string) bool { return strings.Contains(s, "[") && strings.HasSuffix(s, "]") }
 
@@ -661,7 +712,7 @@ func specIsMemText(s string) bool { return strings.Contains(s, "[") && strings.H
 //@ ensures[regreg] !specIsMemText(rmOperand) && result1 == nil ==> len(result0) == 1 && specRegNum(regOperand) >= 0 && specRegNum(rmOperand) >= 0 && result0[0] == 0xC0|byte(specRegNum(regOperand))<<3|byte(specRegNum(rmOperand))
 //@ ensures[regreg.err] !specIsMemText(rmOperand) && (specRegNum(regOperand) < 0 || specRegNum(rmOperand) < 0) ==> result1 != nil
 //@ ensures[mem.reg] specIsMemText(rmOperand) && result1 == nil ==> len(result0) >= 1 && specRegNum(regOperand) >= 0 && result0[0]&0x38 == byte(specRegNum(regOperand))<<3
-//@ assigns OperandPegImpl.bitMode
+//@ assigns OperandPegImpl.bitMode, OperandType[]
 
 //@ func ModRMByValue
 //@ props C01 C13
@@ -670,7 +721,7 @@ func specIsMemText(s string) bool { return strings.Contains(s, "[") && strings.H
 //@ requires[A16] !specReg64Name(rmOperand)
 //@ requires specIsMemText(rmOperand) || rmOperand == "" || specIsRegName(rmOperand)
 //@ ensures[regdigit] !specIsMemText(rmOperand) && specRegNum(rmOperand) >= 0 ==> len(result0) == 1 && result0[0] == 0xC0|byte(regValue)<<3|byte(specRegNum(rmOperand))
-//@ assigns OperandPegImpl.bitMode
+//@ assigns OperandPegImpl.bitMode, OperandType[]
 
 //@ func registerToPushPopCode
 //@ props C01 C18
